@@ -1,7 +1,7 @@
 """Property id -> rules, and the texts that go to MANIFEST / evidence."""
 from .rules import (
     optab, sign, role, memo, state, reord, handles, raw, domain, formats,
-    grammar)
+    grammar, cyts)
 
 PROPS = dict()
 NOT_BUILT = dict()
@@ -311,6 +311,7 @@ prop('C19', [
     optab.r_optab_functions({'dd.cudd', 'dd.cudd_zdd', 'dd.sylvan',
                              'dd.buddy'}),
     optab.r_quant_wrappers({'dd.cudd', 'dd.cudd_zdd', 'dd.sylvan'}),
+    cyts.r_cyts,
 ],
     'the apply chain of each C wrapper (parsed with the Cython parser) is '
     'interpreted per alias over Booleans and compared with the '
